@@ -88,9 +88,17 @@ class SpecMixin:
                     sv = SV(ty, c)
                 vars_.append(c)
                 st2.locals[n] = sv
-        body = self.truthy(self.ev(lam.body, st2, ctx), st2)
+        self._bound_stack = getattr(self, "_bound_stack", [])
+        self._bound_stack.append(list(vars_))
+        from .state import fresh_mark
+        mark = fresh_mark()
+        try:
+            body = self.truthy(self.ev(lam.body, st2, ctx), st2)
+        finally:
+            self._bound_stack.pop()
         g = z3.And(*guards) if guards else z3.BoolVal(True)
         for f in st2.pc[len(st.pc):]:
+            self.binder_audit(f, vars_, mark, node)
             st.assume(z3.ForAll(vars_, z3.Implies(g, f)))
         if is_all:
             return mk_bool(z3.ForAll(vars_, z3.Implies(g, body)))
